@@ -20,6 +20,8 @@ type XMLGenConfig struct {
 	NonASCII    bool
 	EmptyCDATA  bool
 	MixedText   bool
+	LangBias    bool // many xml:lang attributes (for lang() workloads)
+	Wide        bool // some elements get 17-60 children (size thresholds)
 }
 
 func DrawXMLConfig(t *simkit.Tape) XMLGenConfig {
@@ -34,6 +36,8 @@ func DrawXMLConfig(t *simkit.Tape) XMLGenConfig {
 	c.XMLDecl = t.Bool(1, 2)
 	c.MixedText = t.Bool(2, 3)
 	c.EmptyCDATA = c.CDATA && t.Bool(1, 6)
+	c.LangBias = t.Bool(1, 5)
+	c.Wide = t.Bool(1, 8)
 	if c.XMLDecl {
 		c.Encoding = []string{"", "UTF-8", "ISO-8859-1", "windows-1252", "US-ASCII"}[t.Pick(3, 2, 1, 1, 1)]
 	}
@@ -206,6 +210,10 @@ func (g *xmlGen) element(depth int, parentScope map[string]string) *Node {
 	e.Local = g.name()
 	e.Space = scope[e.Prefix] // "" when unprefixed and no default
 	// attributes
+	if g.cfg.LangBias && g.t.Bool(1, 2) {
+		e.Attrs = append(e.Attrs, &Node{Kind: KAttr, Prefix: "xml", Space: XMLNS, Local: "lang", Value: []string{"en", "en-US", "de", "fr", "en-GB"}[g.t.Draw(5)]})
+		g.nodes++
+	}
 	na := g.t.Pick(4, 3, 2, 1)
 	for i := 0; i < na && g.nodes < g.cfg.MaxNodes; i++ {
 		a := &Node{Kind: KAttr}
@@ -248,8 +256,16 @@ func (g *xmlGen) element(depth int, parentScope map[string]string) *Node {
 		if g.t.Bool(1, 3) {
 			nc += g.t.Draw(5)
 		}
+		budget := g.cfg.MaxNodes
+		if g.cfg.Wide && g.t.Bool(1, 4) {
+			nc = 17 + g.t.Draw(44)
+			budget = g.nodes + nc + 4
+			if budget < g.cfg.MaxNodes {
+				budget = g.cfg.MaxNodes
+			}
+		}
 		lastText := false
-		for i := 0; i < nc && g.nodes < g.cfg.MaxNodes; i++ {
+		for i := 0; i < nc && g.nodes < budget; i++ {
 			switch g.t.Pick(4, 3, 1, 1) {
 			case 0:
 				e.Children = append(e.Children, g.element(depth+1, scope))
